@@ -3,13 +3,16 @@ use crate::util::*;
 use serde_json::{json, Value};
 use std::num::NonZeroUsize;
 use std::sync::Arc;
-use vm_memory::bitmap::{ArcSlice, AtomicBitmap, Bitmap};
+use vm_memory::bitmap::{ArcSlice, AtomicBitmap, Bitmap, NewBitmap};
 
 enum Bm {
     Atomic(AtomicBitmap),
     Opt(Option<AtomicBitmap>),
     /// Arc-held bitmap; slices are ArcSlice
     Arc(Arc<AtomicBitmap>),
+    /// the untracked flavours of the trait: `None` of Option<B> and `()`
+    OptNone(Option<AtomicBitmap>),
+    Unit(()),
 }
 
 impl Bm {
@@ -18,13 +21,20 @@ impl Bm {
             Bm::Atomic(b) => b,
             Bm::Opt(b) => b.as_ref().unwrap(),
             Bm::Arc(b) => b,
+            _ => panic!("harness: inherent operation on an untracked bitmap"),
         }
+    }
+    fn tracked(&self) -> bool {
+        !matches!(self, Bm::OptNone(_) | Bm::Unit(_))
     }
     fn deep_clone(&self) -> Bm {
         match self {
             Bm::Atomic(b) => Bm::Atomic(b.clone()),
             Bm::Opt(b) => Bm::Opt(b.clone()),
             Bm::Arc(b) => Bm::Arc(Arc::new(b.as_ref().clone())),
+            Bm::OptNone(b) => Bm::OptNone(b.clone()),
+            #[allow(clippy::unit_arg, clippy::clone_on_copy)]
+            Bm::Unit(b) => Bm::Unit(b.clone()),
         }
     }
     fn mark_dirty(&self, off: usize, len: usize) {
@@ -32,6 +42,8 @@ impl Bm {
             Bm::Atomic(b) => b.mark_dirty(off, len),
             Bm::Opt(b) => b.mark_dirty(off, len),
             Bm::Arc(b) => b.mark_dirty(off, len),
+            Bm::OptNone(b) => b.mark_dirty(off, len),
+            Bm::Unit(b) => b.mark_dirty(off, len),
         }
     }
     fn dirty_at(&self, off: usize) -> bool {
@@ -39,6 +51,8 @@ impl Bm {
             Bm::Atomic(b) => b.dirty_at(off),
             Bm::Opt(b) => b.dirty_at(off),
             Bm::Arc(b) => b.dirty_at(off),
+            Bm::OptNone(b) => b.dirty_at(off),
+            Bm::Unit(b) => b.dirty_at(off),
         }
     }
     fn slice_mark(&self, b1: usize, b2: usize, off: usize, len: usize) {
@@ -46,6 +60,8 @@ impl Bm {
             Bm::Atomic(b) => b.slice_at(b1).slice_at(b2).mark_dirty(off, len),
             Bm::Opt(b) => b.slice_at(b1).slice_at(b2).mark_dirty(off, len),
             Bm::Arc(b) => ArcSlice::new(b.clone(), b1).slice_at(b2).mark_dirty(off, len),
+            Bm::OptNone(b) => b.slice_at(b1).slice_at(b2).mark_dirty(off, len),
+            Bm::Unit(b) => b.slice_at(b1).slice_at(b2).mark_dirty(off, len),
         }
     }
     fn slice_dirty_at(&self, b1: usize, b2: usize, off: usize) -> bool {
@@ -53,6 +69,8 @@ impl Bm {
             Bm::Atomic(b) => b.slice_at(b1).slice_at(b2).dirty_at(off),
             Bm::Opt(b) => b.slice_at(b1).slice_at(b2).dirty_at(off),
             Bm::Arc(b) => ArcSlice::new(b.clone(), b1).slice_at(b2).dirty_at(off),
+            Bm::OptNone(b) => b.slice_at(b1).slice_at(b2).dirty_at(off),
+            Bm::Unit(b) => b.slice_at(b1).slice_at(b2).dirty_at(off),
         }
     }
 }
@@ -89,7 +107,25 @@ fn project(b: &AtomicBitmap, ps: usize) -> Value {
     }
     aset.dedup();
     aclr.dedup();
-    json!({"live": true, "ps": ps, "len": n, "bsz": b.byte_size(), "bits": bits, "aset": aset, "aclr": aclr})
+    json!({"live": true, "tr": true, "ps": ps, "len": n, "bsz": b.byte_size(), "bits": bits, "aset": aset, "aclr": aclr})
+}
+
+/// Projection of an untracked bitmap: it has no size and no bits; what can be observed is dirty_at (directly and
+/// through slices) at boundary-biased offsets - every one of them must answer "clean".
+fn project_untracked(b: &Bm, ps: usize) -> Value {
+    let mut aset = Vec::new();
+    let mut aclr = Vec::new();
+    let probes = [0usize, 1, ps - 1, ps, ps + 1, 63 * ps, 64 * ps, 65 * ps, 4096, usize::MAX / 2, usize::MAX - 1, usize::MAX];
+    for &a in &probes {
+        let direct = b.dirty_at(a);
+        let sliced = b.slice_dirty_at(a, 0, 0) || b.slice_dirty_at(0, a, 0) || b.slice_dirty_at(1, 1, a.saturating_sub(2));
+        if direct || sliced {
+            aset.push(a)
+        } else {
+            aclr.push(a)
+        }
+    }
+    json!({"live": true, "tr": false, "ps": ps, "len": 0, "bsz": 0, "bits": [], "aset": aset, "aclr": aclr})
 }
 
 impl BitmapExec {
@@ -98,7 +134,8 @@ impl BitmapExec {
             .bm
             .iter()
             .map(|b| match b {
-                Some(b) => project(b.ab(), self.ps),
+                Some(b) if b.tracked() => project(b.ab(), self.ps),
+                Some(b) => project_untracked(b, self.ps),
                 None => json!({"live": false}),
             })
             .collect();
@@ -118,8 +155,25 @@ impl Exec for BitmapExec {
                 let bs = us(line, "bs");
                 let ps = us(line, "ps");
                 let fl = line["a"]["fl"].as_str().unwrap_or("atomic");
-                let ab = AtomicBitmap::new(bs, NonZeroUsize::new(ps).expect("harness: ps = 0"));
                 self.ps = ps;
+                // how the object is made: new(bs, ps) | NewBitmap::with_len(bs) (host page size) | Default (0 bytes, 4 KiB pages)
+                let via = line["a"]["via"].as_str().unwrap_or("new");
+                if fl == "optnone" || fl == "unit" {
+                    let b = match (fl, via) {
+                        ("unit", "with_len") => Bm::Unit(<() as NewBitmap>::with_len(bs)),
+                        ("unit", _) => Bm::Unit(()),
+                        (_, "default") => Bm::OptNone(Option::<AtomicBitmap>::default()),
+                        _ => Bm::OptNone(None),
+                    };
+                    self.bm = vec![Some(b), None];
+                    return event(line, unit(), self.state());
+                }
+                let mk = || match via {
+                    "with_len" => AtomicBitmap::with_len(bs),
+                    "default" => AtomicBitmap::default(),
+                    _ => AtomicBitmap::new(bs, NonZeroUsize::new(ps).expect("harness: ps = 0")),
+                };
+                let ab = mk();
                 let b = match fl {
                     "atomic" => Bm::Atomic(ab),
                     "opt" => Bm::Opt(Some(ab)),
@@ -138,6 +192,7 @@ impl Exec for BitmapExec {
                         Bm::Atomic(b) => b.enlarge(add),
                         Bm::Opt(b) => b.as_mut().unwrap().enlarge(add),
                         Bm::Arc(b) => Arc::get_mut(b).expect("harness: arc shared").enlarge(add),
+                        _ => panic!("harness: enlarge on an untracked bitmap"),
                     }
                     unit()
                 })
